@@ -3,6 +3,7 @@ import random
 
 import proggen as P
 from core import Verdict
+from props import isa_prog as IP
 from props import layout_base as LB
 
 RULE = ('generated programs interleaving labels (global/file/local), constants, instructions of sizes 1..4, data of widths '
@@ -13,7 +14,14 @@ RULE = ('generated programs interleaving labels (global/file/local), constants, 
 EXPLANATION = ('Theorems in Props/C02.lean: contiguity within a zone, reserved size = emitted size, label value = cursor at '
                'definition, .align = least multiple not below. Correspondence: image of the real CLI vs the model.')
 ASSUMPTIONS = []
-to_impl, to_model = LB.to_impl, LB.to_model
+
+
+def to_impl(case):
+    return IP.to_impl(case) if case.get('kind') == 'isa-program' else LB.to_impl(case)
+
+
+def to_model(case):
+    return IP.to_model(case) if case.get('kind') == 'isa-program' else LB.to_model(case)
 
 
 def has_label_ref(t):
@@ -35,10 +43,14 @@ def gen_case(rng, tier):
 
 
 def generate(rng, tier):
-    return [gen_case(rng, tier) for _ in range(500 if tier == 'quick' else 12000)]
+    n = 500 if tier == 'quick' else 12000
+    # + whole programs of real bit-packed ISA statements and macro invocations with forward / backward label operands
+    return [gen_case(rng, tier) for _ in range(n)] + [IP.gen_case(rng, tier) for _ in range(n // 4)]
 
 
 def judge(case, ir, mr):
+    if case.get('kind') == 'isa-program':
+        return IP.judge(case, ir, mr, 'C02')
     tags = []
     bad, actual, det = LB.base_judge(case, ir, mr, tags)
     if bad:
